@@ -11,6 +11,7 @@ import Penguin.Lemmas.MuxBasic
 import Penguin.Lemmas.MuxStep
 import Penguin.Lemmas.PairCor
 import Penguin.Lemmas.MuxLeakDrop
+import Penguin.Lemmas.MuxLeakOpen
 import Penguin.Lemmas.PairHarness
 
 namespace Penguin.C06
@@ -170,6 +171,32 @@ example : ((runOps { opts := {} } pre6).handleObj 0).map (fun p => (p.1, p.2.fid
 example : lookup (runOps { opts := {} } pre6).flows 5 = some (.established 0) := by decide
 example : lookup (runOps (applyOp (runOps { opts := {} } pre6) (.dropStream 0)).1
     [.deliver (.msg (.frame (.connect 5 4 80 [])))]).flows 5 = some (.established 1) := by decide
+
+/-- No leak through an abandoned request: when the caller of `new_stream_channel` has given up (a
+    timeout around the call: its future is gone, request `req` is no longer pending) and the peer's
+    `Acknowledge` arrives afterwards on a running, idle endpoint (any reachable one), the stream the
+    handshake creates is let go of at once and the task releases its flow in that very stimulus: for
+    every later history no slot refers to that stream's object — the flow id is free again. -/
+theorem abandoned_request_slot_released_forever (o : Opts) (pre post : List Mux.Op) (x req n : Nat)
+    (hidle : IdleE (runOps { opts := o } pre)) (hsrc : (runOps { opts := o } pre).srcEnded = false)
+    (hpark : (runOps { opts := o } pre).park = none) (hx : x ≠ 0)
+    (hslot : lookup (runOps { opts := o } pre).flows x = some (.requested req))
+    (hgone : (runOps { opts := o } pre).opens.find? (·.req = req) = none) :
+    ∀ fid, lookup (runOps (applyOp (runOps { opts := o } pre) (.deliver (.msg (.frame (.acknowledge x n))))).1 post).flows fid
+      ≠ some (.established (runOps { opts := o } pre).objs.length) := by
+  obtain ⟨hn, hi⟩ := abandoned_open_releases_slot _ x req n (reachable_inv o pre) (reachable_slotFid o pre) hidle hsrc hpark hx hslot hgone
+  exact no_slot_forever _ _ hi hn post
+
+/-! Non-vacuity: a request is started (the id comes from the endpoint's own generator) and cancelled;
+    the endpoint is idle, its only slot is still `requested 1`, request 1 is no longer pending; after
+    the late Acknowledge on that id the table is empty. -/
+private def pre6b : List Mux.Op := [.open 1 [97] 80, .cancelOpen 1]
+private def x6b : Nat := ((runOps { opts := {} } pre6b).flows.map (·.1)).headD 0
+example : IdleE (runOps { opts := {} } pre6b) := ⟨by decide, by decide, by decide, by decide, by decide, by decide⟩
+example : x6b ≠ 0 ∧ lookup (runOps { opts := {} } pre6b).flows x6b = some (.requested 1) ∧
+    (runOps { opts := {} } pre6b).opens.find? (·.req = 1) = none ∧
+    (runOps { opts := {} } pre6b).srcEnded = false ∧ (runOps { opts := {} } pre6b).park = none := by decide
+example : (applyOp (runOps { opts := {} } pre6b) (.deliver (.msg (.frame (.acknowledge x6b 4))))).1.flows = [] := by decide
 
 /-! #### The pair: two endpoints and the wires, every interleaving (`Model/Pair.lean`)
 
